@@ -24,6 +24,9 @@ def activate():
         raise HarnessError(f'cardutil imported from {f}, expected under {REPO}')
     # the library logs eagerly built f-strings and hexdumps at DEBUG/WARNING; keep stdout/stderr clean
     logging.disable(logging.CRITICAL)
+    # cryptography warns on every 8/16-byte TripleDES key the library passes it; keep the check output readable
+    import warnings
+    warnings.simplefilter('ignore')
     return cardutil
 
 
